@@ -43,8 +43,13 @@ def _models_ok():
         truth = bool(td)
         diff = (SymTD(minutes=1) - td).us
         ab = abs(td).us
+        comp = (td * 50000 - SymTD(microseconds=7))
+        comps = (comp.days, comp.seconds, comp.microseconds)
         n0 = int(n)
         ref = timedelta(seconds=n0)
+        rc = ref * 50000 - timedelta(microseconds=7)
+        if tuple(int(v) for v in comps) != (rc.days, rc.seconds, rc.microseconds):
+            bad.append(("components", n0))
         want = (round(n0 / 8), math.floor(n0 / 8), math.ceil(n0 / 8), math.trunc(n0 / 8))
         if tuple(int(v) for v in vals) != want or truth != bool(ref) or int(diff) != (timedelta(minutes=1) - ref) // timedelta(microseconds=1) \
                 or int(ab) != abs(ref) // timedelta(microseconds=1):
